@@ -44,7 +44,7 @@ type Case struct {
 
 func gen(t *rapid.T) Case {
 	c := Case{Cached: rapid.Bool().Draw(t, "cached")}
-	n := rapid.IntRange(0, 5).Draw(t, "nchildren")
+	n := rapid.SampledFrom([]int{0, 1, 2, 2, 3, 3, 4, 5}).Draw(t, "nchildren")
 	for i := 0; i < n; i++ {
 		c.Children = append(c.Children, Child{rapid.Bool().Draw(t, "rep"), rapid.Bool().Draw(t, "tag")})
 	}
